@@ -43,6 +43,16 @@ pub struct LowRes {
 
 pub fn ring_fill(size: usize, seed: u8) -> Vec<u8> { (0..size).map(|i| (i as u8).wrapping_mul(31).wrapping_add(seed)).collect() }
 
+thread_local! {
+    /// correspondence lines (INEW / ICALL) recorded by `run_low` when enabled
+    pub static KLOG: std::cell::RefCell<Option<Vec<String>>> = std::cell::RefCell::new(None);
+    pub static KID: std::cell::Cell<usize> = std::cell::Cell::new(0);
+}
+pub fn klog_enable(on: bool) { KLOG.with(|k| *k.borrow_mut() = if on { Some(vec![]) } else { None }); }
+pub fn klog_take() -> Vec<String> { KLOG.with(|k| k.borrow_mut().as_mut().map(|v| std::mem::take(v)).unwrap_or_default()) }
+fn klog(line: String) { KLOG.with(|k| if let Some(v) = k.borrow_mut().as_mut() { v.push(line); }); }
+fn klog_on() -> bool { KLOG.with(|k| k.borrow().is_some()) }
+
 pub fn run_low(r: &mut DecompressorOxide, z: &[u8], base_flags: u32, mode: &Mode, sched: &Sched, rng: &mut Rng, fill: u8) -> LowRes {
     let (mut buf, pos0, ring) = match mode {
         Mode::Flat { cap, pos0 } => (ring_fill(*cap, fill), *pos0, false),
@@ -53,6 +63,10 @@ pub fn run_low(r: &mut DecompressorOxide, z: &[u8], base_flags: u32, mode: &Mode
     let mut ipos = 0usize;
     let mut opos = pos0;
     let mut cut_done = false;
+    let kid = KID.with(|k| { k.set(k.get() + 1); k.get() });
+    // the model starts from a fresh decoder: only record runs that do
+    let record = klog_on() && r.verif_state().0 == 0 && buf.len() <= (1 << 20);
+    if record { klog(format!("INEW id={} outlen={} fill={}", kid, buf.len(), fill)); }
     let max_calls = 4 * z.len() + 400_000;
     loop {
         res.ncalls += 1;
@@ -77,6 +91,10 @@ pub fn run_low(r: &mut DecompressorOxide, z: &[u8], base_flags: u32, mode: &Mode
             if b[end..] != buf[end..] { let k = (end..buf.len()).find(|&i| b[i] != buf[i]).unwrap(); res.problems.push(("window".into(), format!("call #{} changed byte {} outside the written region [{}, {}) (granted window {} bytes)", res.ncalls, k, opos, end, window))); }
         }
         let sti = st as i32;
+        if record {
+            let ad = r.adler32().map(|a| format!(" adler={}", a)).unwrap_or_default();
+            klog(format!("ICALL id={} ipos={} pos={} budget={} flags={} st={} c={} w={}{} in={} wr={}", kid, ipos, opos, grant.min(1 << 40), flags, sti, c, w, ad, crate::tx::hex(input), crate::tx::hex(&buf[opos..opos + w])));
+        }
         if st == TINFLStatus::HasMoreOutput && w != window { res.problems.push(("status".into(), format!("call #{}: HasMoreOutput but only {} of {} granted bytes written", res.ncalls, w, window))); }
         if st == TINFLStatus::NeedsMoreInput && c != chunk { res.problems.push(("status".into(), format!("call #{}: NeedsMoreInput but only {} of {} offered bytes consumed", res.ncalls, c, chunk))); }
         if st == TINFLStatus::NeedsMoreInput && !has_more { res.problems.push(("status".into(), format!("call #{}: NeedsMoreInput although no more input was announced", res.ncalls))); }
